@@ -21,4 +21,20 @@ func init() {
 			})
 		}
 	}
+	// latejoin: an Add racing the completion of the only job in flight (the last wake-up must not be lost)
+	for _, kp := range allKinds() {
+		kp := kp
+		Register(&Scenario{
+			Name:  name("latejoin/%s", kp),
+			Props: []string{"C03", "C01", "C16", "C17"},
+			Mode:  "NB", Quick: 2, Thorough: 3, Shards: 2,
+			Body: func(h *H) {
+				w := h.NewWorker(kp.W, 1)
+				q := w.Bind(kp.Q, nil)
+				q.Add(0, AddOpt{})
+				go func() { q.Add(1, AddOpt{}) }()
+				h.End()
+			},
+		})
+	}
 }
